@@ -115,11 +115,11 @@ def run(tier):
     bound = 2 if tier == "thorough" else 1
     tasks = [(functools.partial(sched_execute, v), sched_check, bound) for v in ("cer_unknown", "cer_p0", "cer_nocommon")]
     sched_execs = 0
-    for v, r in zip(("cer_unknown", "cer_p0", "cer_nocommon"), scheddfs.explore_many(tasks)):
+    for v, r in zip(("cer_unknown", "cer_p0", "cer_nocommon"), (scheddfs.explore_many(tasks) if tier != "thorough" else scheddfs.explore_many_capped(tasks, 1, 600))):
         sched_execs += r["executions"]
         for (key, detail), choices in r["violations"]:
             rep.add(Violation(key, f"[schedules of {v}, bound {bound}] choices {choices}: {detail}", {"sched": v, "choices": choices}))
-        rep.sample({"schedule_exploration": v, "preemption_bound": bound, "executions": r["executions"], "distinct_outcomes": len(r["outcomes"]),
+        rep.sample({"schedule_exploration": v, "preemption_bound": bound, "bound_completed_without_cap": r.get("bound_completed", bound), "capped": r.get("capped", False), "executions": r["executions"], "distinct_outcomes": len(r["outcomes"]),
                     "branching_points": r["max_points"]}, 12)
     rep.cov["schedules"] = sched_execs
     depth = 6 if tier == "thorough" else 5
